@@ -176,7 +176,9 @@ def encode_brackets_tree(node, ws, emptypos=False, root_label=True, is_root=True
     if M.is_tok(node):
         word = str(node["n"]) if disco else node["w"]
         if emptypos:
-            return "(" + ws("opt") + word + ws("opt") + ")"
+            # no whitespace between the word and the closing bracket: after 'label + whitespace' the reader's automaton
+            # (documented state 3) expects a word or a child
+            return "(" + ws("opt") + word + ")"
         return "(" + ws("opt") + node["p"] + ws("req") + word + ws("opt") + ")"
     out = "("
     if not (is_root and not root_label):
@@ -280,20 +282,21 @@ def xml_attr(value):
     return '"' + value.replace("&", "&amp;").replace("<", "&lt;").replace(">", "&gt;").replace('"', "&quot;") + '"'
 
 
-def encode_tigerxml(cases, encoding="utf-8", sid_format="%d", perm=None, secedges=False, vroot=True):
-    """perm(list) -> permuted list (attribute order, nt order, edge order)."""
+def encode_tigerxml(cases, encoding="utf-8", sid_format="%d", perm=None, secedges=False, vroot=True, tid=None):
+    """perm(list) -> permuted list (attribute order, nt order, edge order); tid(n) -> id string of token n."""
     perm = perm or (lambda x: x)
+    tid = tid or (lambda n: "t%d" % n)
     out = ['<?xml version="1.0" encoding="%s" standalone="yes"?>\n<corpus id="c">\n<head><meta><name>x</name></meta></head>\n<body>\n' % encoding]
     for case in cases:
         root = case["root"]
         number = number_constituents(root)
         out.append('<s id=%s>\n<graph root="s_%d">\n  <terminals>\n' % (xml_attr(sid_format % case["sid"]), number[id(root)]))
         for tok in M.toks(root):
-            attrs = [("id", "t%d" % tok["n"]), ("word", tok["w"]), ("lemma", tok.get("lem") or "--"), ("pos", tok["p"]), ("morph", tok.get("m") or "--")]
+            attrs = [("id", tid(tok["n"])), ("word", tok["w"]), ("lemma", tok.get("lem") or "--"), ("pos", tok["p"]), ("morph", tok.get("m") or "--")]
             attrs = [attrs[0]] + list(perm(attrs[1:]))
             inner = ""
             if secedges and tok["n"] == 1:
-                inner = '<secedge label="SE" idref="t1" />'
+                inner = '<secedge label="SE" idref="%s" />' % tid(1)
             out.append("    <t %s %s>\n" % (" ".join("%s=%s" % (k, xml_attr(v)) for k, v in attrs), "/" if not inner else "") if not inner
                        else "    <t %s>%s</t>\n" % (" ".join("%s=%s" % (k, xml_attr(v)) for k, v in attrs), inner))
         out.append("  </terminals>\n  <nonterminals>\n")
@@ -303,7 +306,7 @@ def encode_tigerxml(cases, encoding="utf-8", sid_format="%d", perm=None, secedge
         for node in perm(cons):
             out.append("    <nt id=%s cat=%s>\n" % (xml_attr("n%d" % number[id(node)]), xml_attr(node["l"])))
             for child in perm(list(M.kids(node))):
-                ref = "t%d" % child["n"] if M.is_tok(child) else "n%d" % number[id(child)]
+                ref = tid(child["n"]) if M.is_tok(child) else "n%d" % number[id(child)]
                 out.append("      <edge label=%s idref=%s />\n" % (xml_attr(child.get("e") or "--"), xml_attr(ref)))
             out.append("    </nt>\n")
         out.append("  </nonterminals>\n</graph>\n</s>\n")
